@@ -13,6 +13,8 @@ class RunClass(stateworld.StateWorld):
 def gen_config(rng, tier):
     n = rng.choice([1, 2, 2, 2, 3, 3, 3, 3, 4, 4, 4, 5, 6] if tier == "thorough" else
                    [1, 2, 2, 2, 3, 3, 3, 3, 4, 4, 5])
+    if rng.random() < 0.02:
+        n = rng.choice([7, 8, 9])      # a few runs on larger registers (word / byte boundaries, wider tableaux)
     ops = {"new": 1.0, "measure": 3.0}
     for k, w in (("rot", 2.0), ("tmap", 1.5), ("gate", 1.5), ("copy", 0.7), ("setr", 0.7),
                  ("remeasure", 1.0), ("postselect", 1.5), ("mlayer", 1.0), ("cnew", 0.8),
@@ -20,7 +22,7 @@ def gen_config(rng, tier):
         if rng.random() < 0.7:
             ops[k] = w * rng.choice([0.5, 1.0, 2.0])
     faults = [f for f in ("coin_force", "remeasure", "view_operand", "rejected_op") if rng.random() < 0.7]
-    return {"n": n, "steps": rng.randrange(4, 40) if tier != "thorough" else rng.randrange(4, 90), "ops": ops, "faults": faults,
+    return {"n": n, "steps": (lambda x: min(x, 14) if n >= 6 else x)(rng.randrange(4, 40) if tier != "thorough" else rng.randrange(4, 90)), "ops": ops, "faults": faults,
             "flags": ["c05"], "max_slots": rng.choice([1, 2, 3, 4]), "dense": rng.random() < 0.3}
 
 
